@@ -38,14 +38,15 @@ def gen_where(rng, names_below, allow_or=True, kinds_ok=True):
 
 def gen_case(rng):
     n = rng.randint(1, 5)
-    names = [f"q{i}" for i in range(n)]
+    # a saved query is named by its path below zoq/: plain words, but also names with `-`, `.`, upper case, sub-directories
+    names = [rng.choice([f"q{i}", f"q{i}", f"q-{i}", f"q.{i}", f"sub/q{i}", f"Q_{i}", f"tmp/x-{i}.v2"]) for i in range(n)]
     saved = {}
     for i in reversed(range(n)):
         w = gen_where(rng, names[i + 1 :])
         line = rng.choice(["# W {w}", "# S note W {w} G file", "# W {w} O priority G none", "# S file W {w} O alpha", "# W {w} G type file O create"]).format(w=w)
         extra = rng.choice(["", "\n#\n# SAVED QUERY GENERATED ON 2024-01-01 AT 00:00:00.\n\n- old result"])
         saved[names[i]] = line + extra
-    refs = [rng.choice(names + (["missing"] if rng.random() < 0.1 else []))] + ([rng.choice(names)] if rng.random() < 0.4 else [])
+    refs = [rng.choice(names + ([rng.choice(["missing", "no-such", "sub/none"])] if rng.random() < 0.1 else []))] + ([rng.choice(names)] if rng.random() < 0.4 else [])
     outer_parts = [rng.choice(NONKIND) for _ in range(rng.randint(0, 2))] + ["{" + r + "}" for r in refs]
     rng.shuffle(outer_parts)
     outer = "W " + " ".join(outer_parts)
@@ -103,6 +104,7 @@ def body(ctx: C.Ctx, proof: C.ProofStatus) -> C.Result:
             shutil.rmtree(zq)
         zq.mkdir(parents=True)
         for nm, content in case["saved"].items():
+            (zq / f"{nm}.zoq").parent.mkdir(parents=True, exist_ok=True)
             (zq / f"{nm}.zoq").write_text(content)
 
     # ---- textual expansion vs model ---------------------------------------------------------
@@ -228,11 +230,11 @@ def classify(f: C.Failure, entry: dict) -> bool:
 
 
 RULE = (
-    "acyclic sets of 1-5 saved query pages (S/O/G clauses in every order, alternatives, parenthesised groups, nested references, old results "
+    "acyclic sets of 1-5 saved query pages (names with -, ., upper case and sub-directories; S/O/G clauses in every order, alternatives, parenthesised groups, nested references, old results "
     "below the first line) x referencing queries; expand_saved_queries text vs the Lean model; missing names; then on real indexes "
     "swog.execute of the referencing query vs the explicit conjunction with every reference parenthesised; non-trivial = query with a reference"
 )
-ASSUME = ["names over [a-z0-9]; one reference never contains braces", "set iteration order is irrelevant because expanded filters contain no braces"]
+ASSUME = ["names over [A-Za-z0-9_./-]; one reference never contains braces", "set iteration order is irrelevant because expanded filters contain no braces"]
 
 if __name__ == "__main__":
     sys.exit(C.run_check(PROP, MODULES, body, rule=RULE, assumptions=ASSUME, classify=classify))
